@@ -135,6 +135,13 @@ def _work(item):
     task, start, budget_s, max_paths = item
     mod = _W["mod"]
     t0 = time.time()
+    if os.environ.get("VERIF_WATCHDOG"):  # debugging aid: where is a work item after N seconds?
+        import faulthandler
+
+        _W["wd"] = open("/tmp/watchdog_%d.txt" % os.getpid(), "a")
+        _W["wd"].write("== task %s\n" % task["id"])
+        _W["wd"].flush()
+        faulthandler.dump_traceback_later(int(os.environ["VERIF_WATCHDOG"]), file=_W["wd"])
     out = {
         "task": task["id"],
         "paths": 0,
@@ -207,6 +214,13 @@ def _work(item):
 
 def _validate_batch(batch):
     mod = _W["mod"]
+    if os.environ.get("VERIF_WATCHDOG"):
+        import faulthandler
+
+        _W["wd"] = open("/tmp/watchdog_plain_%d.txt" % os.getpid(), "a")
+        _W["wd"].write("== batch %s\n" % batch[0][0]["id"])
+        _W["wd"].flush()
+        faulthandler.dump_traceback_later(int(os.environ["VERIF_WATCHDOG"]), file=_W["wd"])
     bad = []
     viol = []
     n = 0
@@ -247,6 +261,10 @@ def load_known_findings():
 def run_check(modname, tier, seed, canary=None, quiet=False):
     """Run one check module.  Returns (exit_code, evidence dict)."""
     t0 = time.time()
+    if os.environ.get("VERIF_WATCHDOG"):
+        import faulthandler
+
+        faulthandler.dump_traceback_later(int(os.environ["VERIF_WATCHDOG"]), repeat=True, file=open("/tmp/watchdog_parent.txt", "w"))
     mod = importlib.import_module(modname)
     pid = mod.PROPERTY_ID
     tasks = mod.tasks(tier, seed)
